@@ -285,6 +285,7 @@ TypeOK == /\ pc \in {"pop", "src", "search", "sea", "gen", "borrow", "bor", "bch
           /\ \A m \in DOMAIN proc : proc[m].st \in Status
           /\ ended \in {"no", "return"}
 P_NoRaise == NoRaise(ended)
+P_Terminates == Terminates(ended)
 P_OneOfSix == OneOfSix(proc, ended)
 P_Accounted == Accounted(req, log, proc, ended)
 P_PutAtMostOnce == PutAtMostOnce(log)
